@@ -281,6 +281,21 @@ def vmdk(p):
         if room >= 2:
             body_txt += '#' + 'x' * (room - 2) + '\n'
             desc = (body_txt + tail).encode('ascii')
+    wt = p.get('window_tail_line')
+    if wt:
+        # a descriptor as long as the window the inspector may look at (min(desc_num sectors, 1 MiB - 1)): comment filler,
+        # then one more line that ends `window_tail_back` bytes before the end of that window
+        line, line_ok = wt
+        window = min(desc_num * 512, (1 << 20) - 1)
+        base_txt = desc.decode('ascii')
+        tail = line + '\n'
+        room = window - len(base_txt) - len(tail) - p.get('window_tail_back', 0)
+        if room >= 0:
+            filler = ('#' + 'x' * 98 + '\n') * (room // 100)
+            rest = room - len(filler)
+            filler += '\n' if rest == 1 else ('#' + 'x' * (rest - 2) + '\n') if rest >= 2 else ''
+            desc = (base_txt + filler + tail).encode('ascii')
+            desc_ok = desc_ok and line_ok
     hdr = struct.pack('<4sIIQQQQIQQ', magic, ver & 0xffffffff, 3, sectors, 128, desc_sec, desc_num, 512, 0, gd)
     hdr = hdr.ljust(512, b'\0')
     if p.get('hdr_filler_seed') is not None:
